@@ -128,8 +128,9 @@ Qed.
 
 Lemma loadConfig_total cap i : loadConfig cap i <> Panic /\ loadConfig cap i <> Fuel.
 Proof.
-  destruct i as [| |d]; simpl; try (split; discriminate).
-  destruct (load_total cap d). destruct (load cap d) as [[[a b] t]| | |]; simpl; split; congruence.
+  destruct i as [| |st d]; simpl; try (split; discriminate).
+  destruct (load_total cap d). destruct st; try (split; discriminate);
+    destruct (load cap d) as [[[a b] t]| | |]; simpl; split; congruence.
 Qed.
 
 (* ---------------------------------------------------------------- *)
@@ -197,10 +198,10 @@ Definition ex_doc_v6 : doc :=
 
 (* the inputs that made the unrepaired constructor panic now reset to an empty table *)
 Lemma new_former_panics_reset :
-  (exists s, new ex_cfg (fun _ => true) (Doc ex_doc_nonet1) = Ok s /\ d_table s = [])
-  /\ (exists s, new ex_cfg (fun _ => true) (Doc ex_doc_v6) = Ok s /\ d_table s = []).
+  (exists s, new ex_cfg (fun _ => true) (Doc SumOk ex_doc_nonet1) = Ok s /\ d_table s = [])
+  /\ (exists s, new ex_cfg (fun _ => true) (Doc SumAbsent ex_doc_v6) = Ok s /\ d_table s = []).
 Proof. split; eexists; split; vm_compute; reflexivity. Qed.
 
 Example new_total_nonvacuous :
-  exists s, new ex_cfg (fun _ => false) (Doc ex_doc) = Ok s /\ d_table s <> [].
+  exists s, new ex_cfg (fun _ => false) (Doc SumOk ex_doc) = Ok s /\ d_table s <> [].
 Proof. vm_compute. eexists. split; [reflexivity|discriminate]. Qed.
